@@ -362,7 +362,11 @@ class Gen:
             D.order.append(n)
             local_structs.append(n)
         local_msgs = []
-        for _ in range(rng.randint(1, 4)):
+        # (an imported file may hold types only: its message section is then written as null / left empty)
+        nmsgs = 0 if (fname != getattr(self, "_root_path", None) and rng.random() < 0.1) else rng.randint(1, 4)
+        if nmsgs == 0:
+            D.features.add("file_without_messages")
+        for _ in range(nmsgs):
             n = self.nm.new("M_")
             self.next_id += rng.randint(1, 7)
             mid = self.idmap(self.next_id)
@@ -436,6 +440,7 @@ class Gen:
             dirs = [rng.choice(["", "sub/", "sub/deep/", "other/"]) for _ in range(k)]
             dirs[-1] = ""
         paths = [dirs[i] + names[i] for i in range(k)]
+        self._root_path = paths[k - 1]
         imports = {i: [] for i in range(k)}  # index -> list of imported indexes
         if shape == "chain" or (shape in ("subdirs",)):
             for i in range(1, k):
